@@ -393,6 +393,15 @@ def install(eng):  # noqa: C901
             k += 1
 
     eng.iter_handlers[SRange] = iter_srange
+
+    class SRevRange:
+        """reversed(range(lo, hi)) with symbolic bounds; only usable as the
+        iterable of a loop that has an invariant (generic element)."""
+
+        def __init__(self, r):
+            self.r = r
+
+    eng.reversed_handlers[SRange] = lambda e, r: SRevRange(r)
     eng.len_handlers[SRange] = lambda e, r: _clip0(r.hi - r.lo)
 
     def _clip0(n):
